@@ -13,7 +13,7 @@ ASSUMPTIONS = ["Decimal arithmetic is exact for v2 (at most 23 significant digit
 def run(ctx):
     rng = ctx.rng
     V = VOCAB["2"]
-    strings = [render("2", a) for a in enum.all_base("2")]
+    strings = [render("2", a) for a in enum.all_base("2")] + core.v2_low_family()
     for a in enum.all_base("2"):
         for _ in range(ctx.n(12, 48)):
             b = dict(a)
